@@ -412,7 +412,25 @@ func (w *world) apply(p sop) (out []string) {
 	case "err":
 		return []string{b(w.scopes[p.S].Err() != nil)}
 	case "wait":
-		return []string{b(w.scopes[p.S].Wait() != nil)}
+		// issued only when the bookkeeping says nothing is outstanding: it must not block
+		ch := make(chan string, 1)
+		sc := w.scopes[p.S]
+		go func() {
+			defer func() {
+				if r := recover(); r != nil {
+					ch <- "SPanic"
+				}
+			}()
+			ch <- b(sc.Wait() != nil)
+		}()
+		select {
+		case v := <-ch:
+			return []string{v}
+		case <-time.After(2 * time.Second):
+			w.hang = true
+			w.baseG++ // the stuck goroutine stays
+			return []string{"SPanic"}
+		}
 	case "capp":
 		w.ctxs[p.S].AppendError(toErrs(p.Es)...)
 	case "ckill":
